@@ -31,6 +31,7 @@ import (
 
 	dtypes "github.com/docker/docker/api/types"
 	"github.com/mailru/easyjson/jwriter"
+	"github.com/v-byte-cpu/sx/command"
 	"github.com/v-byte-cpu/sx/command/log"
 	"github.com/v-byte-cpu/sx/pkg/scan"
 	"github.com/v-byte-cpu/sx/pkg/scan/arp"
@@ -1047,7 +1048,22 @@ func logCase(r *hlib.SplitMix64, gen string) row {
 	if ticks {
 		opts = append(opts, log.FlushInterval(time.Nanosecond))
 	}
-	lg, err := log.NewLogger(w, "c14", opts...)
+	// the logger as the commands build it in JSON mode (their unexported getLogger, through the hook
+	// command/verif_export_c14.go), or built directly
+	var lg log.Logger
+	var err error
+	switch r.Intn(3) {
+	case 0:
+		lg, err = log.NewLogger(w, "c14", opts...)
+	case 1:
+		lg, err = command.VerifC14PacketLogger("c14", w, true)
+		class += "+packet-cmd"
+		ticks = false
+	default:
+		lg, err = command.VerifC14GenericLogger("c14", w, true)
+		class += "+generic-cmd"
+		ticks = false
+	}
 	if err != nil {
 		panic(err)
 	}
@@ -1152,8 +1168,10 @@ func uniqCase(r *hlib.SplitMix64, gen string) row {
 	n := 1 + r.Intn(14)
 	pool := 1 + r.Intn(5)
 	var base []genRes
+	// one result type per history (a logger only ever sees the results of one scan type; IDs of different
+	// types are not meant to be comparable)
+	kind := []int{0, 0, 0, 1, 2, 3}[r.Intn(6)]
 	for i := 0; i < pool; i++ {
-		kind := []int{0, 0, 0, 1, 2, 3}[r.Intn(6)]
 		g := genResult(r, kind, false)
 		for isNilICMP(g) { // the scanners never produce it, and String() of such a value panics
 			g = genResult(r, kind, false)
@@ -1312,6 +1330,88 @@ func uniqCase(r *hlib.SplitMix64, gen string) row {
 	return rw
 }
 
+// ---------------------------------------------------------------- live ARP scan: the command's own logger
+
+// liveCase feeds a result sequence with repetitions to the logger `sx arp --json --live` builds
+// (arpCmdOpts.getLogger: JSON logger on os.Stdout wrapped in the unique logger) and records the
+// bytes that reach standard output.
+func liveCase(r *hlib.SplitMix64, gen string) row {
+	n := 1 + r.Intn(12)
+	pool := 1 + r.Intn(4)
+	var ips []string
+	for i := 0; i < pool; i++ {
+		s := fmt.Sprintf("192.168.0.%d", 1+r.Intn(250))
+		if r.Intn(5) == 0 {
+			s, _ = nasty(r)
+		}
+		ips = append(ips, s)
+	}
+	var gs []genRes
+	for i := 0; i < n; i++ {
+		x := &arp.ScanResult{IP: ips[r.Intn(pool)], MAC: fmt.Sprintf("02:00:00:00:%02x:%02x", r.Intn(256), r.Intn(256)), Vendor: []string{"", "Apple, Inc.", "A&B <C>"}[r.Intn(3)]}
+		gs = append(gs, genRes{real: x, desc: resDesc{0, []val{sval(x.IP), sval(x.MAC), sval(x.Vendor)}}})
+	}
+	pr, pw, err := os.Pipe()
+	if err != nil {
+		panic(err)
+	}
+	old := os.Stdout
+	os.Stdout = pw
+	lg, err := command.VerifC14ARPLogger(true, time.Second)
+	os.Stdout = old
+	if err != nil {
+		panic(err)
+	}
+	var got bytes.Buffer
+	rd := make(chan struct{})
+	go func() { io.Copy(&got, pr); close(rd) }()
+	ctx, cancel := context.WithCancel(context.Background())
+	defer cancel()
+	in := make(chan scan.Result, r.Intn(3))
+	done := make(chan struct{})
+	go func() { lg.LogResults(ctx, in); close(done) }()
+	rw := row{T: "live", Gen: gen, Class: "arp-live-json", Nontrivial: n > pool}
+	for i, g := range gs {
+		select {
+		case in <- g.real:
+		case <-time.After(5 * time.Second):
+			cancel()
+			pw.Close()
+			rw.Spec = fmt.Sprintf("the live ARP logger stops taking results after %d of %d", i, n)
+			return rw
+		}
+	}
+	close(in)
+	select {
+	case <-done:
+	case <-time.After(20 * time.Second):
+		pw.Close()
+		rw.Spec = "the live ARP logger does not finish after its input ended"
+		return rw
+	}
+	pw.Close()
+	<-rd
+	pr.Close()
+	for _, g := range gs {
+		rw.Rs = append(rw.Rs, g.desc)
+	}
+	rw.Writes = []string{hx(got.Bytes())}
+	// the property on the implementation alone: one line per distinct address, at its first sighting
+	seen := map[string]bool{}
+	var want []byte
+	for _, g := range gs {
+		if k := hostKey(g.real); !seen[k] {
+			seen[k] = true
+			enc, _ := g.real.MarshalJSON()
+			want = append(append(want, enc...), '\n')
+		}
+	}
+	if !bytes.Equal(got.Bytes(), want) {
+		rw.Spec = fmt.Sprintf("standard output has %d lines, expected the %d first sightings in order (JSON mode, live)", bytes.Count(got.Bytes(), []byte{'\n'}), len(seen))
+	}
+	return rw
+}
+
 // ---------------------------------------------------------------- driver
 
 func derive(seed int64, i int) int64 {
@@ -1352,6 +1452,8 @@ func genCase(gen string) row {
 		return logCase(hlib.NewRand(num(1)), gen)
 	case "uniq":
 		return uniqCase(hlib.NewRand(num(1)), gen)
+	case "live":
+		return liveCase(hlib.NewRand(num(1)), gen)
 	}
 	panic("bad gen string " + gen)
 }
@@ -1423,6 +1525,10 @@ func main() {
 		k++
 		w.Put(genCase(fmt.Sprintf("uniq:%d", derive(*seed, k))))
 		k++
+		if i%4 == 0 {
+			w.Put(genCase(fmt.Sprintf("live:%d", derive(*seed, k))))
+			k++
+		}
 	}
 	_ = os.Stdout
 	_ = dtypes.Info{}
